@@ -1178,4 +1178,56 @@ func (*BigInt).ExponentiateVal
   assigns fresh
   requires i != nil && wfv(other)
   ensures int: isInt(other) && old(intval(other)) >= 0 ==> ret1 == Undefined && isInt(ret0) && intval(ret0) == ipow(old(bigval(i)), old(intval(other))) && canon(ret0)
+
+// ==== C26: symbol interning is a bijection under concurrency ================================
+// Monitor discipline: nameTable and idTable are accessed only while s.mutex is held
+// (read mode for reads, write mode for writes), every function returns with the lock state
+// it was entered with, and every critical section keeps the bijection
+//    name in nameTable  ==>  idTable[nameTable[name]] == name
+//    0 <= i < len(idTable)  ==>  nameTable[idTable[i]] == i
+guarded SymbolTableStruct.nameTable by mutex
+guarded SymbolTableStruct.idTable by mutex
+
+spec fn lockOf(s *SymbolTableStruct) int = ghost(lockstate, &s.mutex)
+spec fn symOf(s *SymbolTableStruct, n string) Symbol = s.nameTable[n]
+spec fn bij(s *SymbolTableStruct) bool = (forall n string :: mapHas(s.nameTable, n) ==> 0 <= symOf(s, n) && symOf(s, n) < len(s.idTable) && streq(elem(s.idTable, symOf(s, n)), n)) && (forall i int :: 0 <= i && i < len(s.idTable) ==> mapHas(s.nameTable, elem(s.idTable, i)) && symOf(s, elem(s.idTable, i)) == i)
+
+func (*SymbolTableStruct).Get
+  props C26 C11
+  requires s != nil && s.nameTable != nil && lockOf(s) == 0
+  ensures balance: lockOf(s) == 0
+  ensures found: old(mapHas(s.nameTable, name)) ==> ret1 && ret0 == old(symOf(s, name))
+  ensures missing: !old(mapHas(s.nameTable, name)) ==> !ret1 && ret0 == -1
+  ensures frame: s.nameTable == old(s.nameTable) && s.idTable == old(s.idTable)
+
+func (*SymbolTableStruct).GetName
+  props C26 C11
+  requires s != nil && lockOf(s) == 0
+  ensures balance: lockOf(s) == 0
+  ensures found: 0 <= symbol && symbol < old(len(s.idTable)) ==> ret1 && streq(ret0, old(elem(s.idTable, symbol)))
+  ensures missing: !(0 <= symbol && symbol < old(len(s.idTable))) ==> !ret1
+
+// interning: an existing name keeps its symbol and nothing changes; a new name gets the next
+// id, every existing binding is preserved, and the tables remain inverse to each other
+func (*SymbolTableStruct).Add
+  props C26 C11
+  requires s != nil && s.nameTable != nil && lockOf(s) == 0 && bij(s)
+  ensures balance: lockOf(s) == 0
+  ensures inv: bij(s)
+  ensures result: mapHas(s.nameTable, name) && symOf(s, name) == ret
+  ensures existing: old(mapHas(s.nameTable, name)) ==> ret == old(symOf(s, name)) && s.idTable == old(s.idTable)
+  ensures fresh: !old(mapHas(s.nameTable, name)) ==> ret == old(len(s.idTable)) && len(s.idTable) == old(len(s.idTable)) + 1
+  ensures stable: forall n string :: old(mapHas(s.nameTable, n)) ==> mapHas(s.nameTable, n) && symOf(s, n) == old(symOf(s, n))
+  ensures ids: forall i int :: 0 <= i && i < old(len(s.idTable)) ==> streq(elem(s.idTable, i), old(elem(s.idTable, i)))
+
+func (*SymbolTableStruct).Exists
+  props C26 C11
+  requires s != nil && s.nameTable != nil && lockOf(s) == 0
+  ensures balance: lockOf(s) == 0
+  ensures ret <==> old(mapHas(s.nameTable, name))
+
+func (*SymbolTableStruct).ExistsId
+  props C26 C11
+  requires s != nil && lockOf(s) == 0
+  ensures balance: lockOf(s) == 0
 @*/
